@@ -80,6 +80,15 @@ func (win Window) SetCell(col int, row int, cell Cell) {
 	if row < 0 || col < 0 {
 		return
 	}
+	// A wide cell which doesn't fit in what is left of the row can't be drawn:
+	// its trailing half would be painted outside of the window
+	w := cell.Width
+	if w == 0 && cell.Grapheme != "" {
+		w = win.Vx.characterWidth(cell.Grapheme)
+	}
+	if w > 1 && col+w > win.Width {
+		return
+	}
 	switch win.Parent {
 	case nil:
 		win.Vx.screenNext.setCell(col+win.Column, row+win.Row, cell)
